@@ -53,23 +53,25 @@ type sent struct {
 }
 
 type world struct {
-	mu      sync.Mutex
-	names   []string // spec names, index = validator index in key order of `keys`
-	byz     map[int]bool
-	keys    []crypto.PrivateKeyI
-	power   []uint64
-	vs      lib.ValidatorSet
-	rootH   uint64
-	nodes   []*ctrl
-	out     []*sent
-	seeds   map[uint64][][]byte               // root height -> LastProposers addresses (sortition seed)
-	values  map[string][]byte                 // value tag -> block bytes
-	tagOf   map[string]string                 // hex(block hash) + hex(results hash) -> value tag
-	resOf   map[string]*lib.CertificateResult // value tag -> certificate results
-	results *lib.CertificateResult
-	commits map[int]string // node -> committed value tag
-	commitQ map[int]*lib.QuorumCertificate
-	gateLog []string
+	mu          sync.Mutex
+	names       []string // spec names, index = validator index in key order of `keys`
+	byz         map[int]bool
+	keys        []crypto.PrivateKeyI
+	power       []uint64
+	vs          lib.ValidatorSet
+	rootH       uint64
+	nodes       []*ctrl
+	out         []*sent
+	seeds       map[uint64][][]byte               // root height -> LastProposers addresses (sortition seed)
+	values      map[string][]byte                 // value tag -> block bytes
+	tagOf       map[string]string                 // hex(block hash) + hex(results hash) -> value tag
+	resOf       map[string]*lib.CertificateResult // value tag -> certificate results
+	vsByRoot    map[uint64]lib.ValidatorSet       // live mode: committee per root height (default: vs)
+	lastUpdated uint64                            // live mode: CommitteeData.LastRootHeightUpdated
+	results     *lib.CertificateResult
+	commits     map[int]string // node -> committed value tag
+	commitQ     map[int]*lib.QuorumCertificate
+	gateLog     []string
 }
 
 // ctrl implements bft.Controller for one replica
@@ -95,7 +97,7 @@ func (c *ctrl) ProduceProposal(be *bft.ByzantineEvidence, vdf *crypto.VDF) (uint
 	return c.rootH, blk, c.w.resOf[c.next], nil
 }
 func (c *ctrl) ValidateProposal(rc uint64, qc *lib.QuorumCertificate, ev *bft.ByzantineEvidence) (*lib.BlockResult, lib.ErrorI) {
-	if strictBuildHeight && rc != c.rootH { // live mode: the proposal must have been built at the root height the replicas know
+	if strictBuildHeight && (rc > c.rootH || rc < c.w.lastUpdated) { // live mode: built at a root height the replicas know and not older than the committee data
 		return nil, lib.ErrInvalidRCBuildHeight()
 	}
 	return &lib.BlockResult{}, nil
@@ -116,7 +118,11 @@ func (w *world) gate(node int, qc *lib.QuorumCertificate) (string, error) {
 	if err := qc.CheckBasic(); err != nil {
 		return "", err
 	}
-	partial, err := qc.Check(w.vs, 1<<30, &lib.View{NetworkId: netID, ChainId: chainID}, false)
+	vs := w.vs
+	if v, ok := w.vsByRoot[qc.Header.RootHeight]; ok { // the committee in force at the certificate's root height
+		vs = v
+	}
+	partial, err := qc.Check(vs, 1<<30, &lib.View{NetworkId: netID, ChainId: chainID}, false)
 	if err != nil {
 		return "", err
 	}
@@ -175,11 +181,14 @@ func (c *ctrl) Syncing() *atomic.Bool                              { return &c.s
 func (c *ctrl) ResetFSM()                                          {}
 func (c *ctrl) SendCertificateResultsTx(qc *lib.QuorumCertificate) {}
 func (c *ctrl) LoadCommittee(rc, rh uint64) (lib.ValidatorSet, lib.ErrorI) {
+	if vs, ok := c.w.vsByRoot[rh]; ok { // live mode: the committee can change with the root height
+		return vs, nil
+	}
 	return c.w.vs, nil
 }
 func (c *ctrl) LoadCommitteeData() (*lib.CommitteeData, lib.ErrorI) {
 	if strictBuildHeight {
-		return &lib.CommitteeData{ChainId: chainID, LastRootHeightUpdated: c.rootH}, nil
+		return &lib.CommitteeData{ChainId: chainID, LastRootHeightUpdated: c.w.lastUpdated}, nil
 	}
 	return &lib.CommitteeData{ChainId: chainID}, nil
 }
@@ -214,7 +223,7 @@ func blockHash(blk []byte) []byte {
 // newWorld builds the committee: names[i] is the spec name of validator i, byz marks Byzantine ones
 func newWorld(names []string, byz map[string]bool, power []uint64, valueTags []string) (*world, error) {
 	w := &world{names: names, byz: map[int]bool{}, rootH: 1, seeds: map[uint64][][]byte{}, values: map[string][]byte{},
-		tagOf: map[string]string{}, resOf: map[string]*lib.CertificateResult{}, commits: map[int]string{}, commitQ: map[int]*lib.QuorumCertificate{}}
+		vsByRoot: map[uint64]lib.ValidatorSet{}, lastUpdated: 1, tagOf: map[string]string{}, resOf: map[string]*lib.CertificateResult{}, commits: map[int]string{}, commitQ: map[int]*lib.QuorumCertificate{}}
 	w.results = &lib.CertificateResult{RewardRecipients: &lib.RewardRecipients{PaymentPercents: []*lib.PaymentPercents{{Address: bytes.Repeat([]byte{1}, 20), Percent: 100, ChainId: chainID}}}, SlashRecipients: &lib.SlashRecipients{}}
 	for i, tag := range valueTags {
 		w.values[tag] = mkBlock(i + 1)
